@@ -160,6 +160,18 @@ func scenarios(thorough bool) []scenario {
 			build: func(env *sbx.Env, srv *fakelfs.Server, r *rand.Rand) string {
 				return pointerClone(env, srv, r, 4, true)
 			}},
+		{name: "lfs-fetch-with-parts-server-ignores-range", prog: "git-lfs", args: []string{"fetch", "origin", "main"}, crashCmd: "fetch", direct: true,
+			build: func(env *sbx.Env, srv *fakelfs.Server, r *rand.Rand) string {
+				// resume files from an earlier interrupted run, and a server that answers a Range request
+				// with 200 and the whole object
+				srv.SetHook(func(rq *fakelfs.Request) *fakelfs.Fault {
+					if rq.Kind == "storage-get" {
+						return &fakelfs.Fault{IgnoreRange: true}
+					}
+					return nil
+				})
+				return pointerClone(env, srv, r, 3, true)
+			}},
 		{name: "lfs-fsck-repair", prog: "git-lfs", args: []string{"fsck"}, crashCmd: "fsck", direct: true, wantExit: 1,
 			build: func(env *sbx.Env, srv *fakelfs.Server, r *rand.Rand) string {
 				repo, _ := sourceRepo(env, srv, r, "repo", 5)
@@ -408,7 +420,7 @@ type job struct {
 func main() {
 	run := evid.New("C09", "fault_enumeration")
 	defer sbx.RemoveBase()
-	run.Rule = "per scenario {git add via filter-process, one-shot clean, fetch of N objects with resume parts, pull, checkout with smudge download, migrate import, fsck repair of corrupt objects, prune, pull in a clone with a reference store, fetch with the reference store on another filesystem, fetch through a standalone custom transfer agent with its scratch directory on the same / another filesystem}: a discovery run logs every reached verif crash point (temp-file creation, each copy burst, rename into place, link/copy from a reference store, move to bad/, unlink); one SIGKILL run per (point, scenario-wide ordinal); plus an strace sweep injecting SIGKILL at the N-th write/rename/link/unlink/openat of the git-lfs process; plus a write-discipline trace check (no open-for-write below lfs/objects) on uninterrupted runs. Oracle after each kill: every file under lfs/objects hashes to its name, leftovers only in lfs/tmp|incomplete|bad|cache|logs, re-running the command exits as the uninterrupted run and ends with the same object (and bad/) set as the golden run. Class = (scenario, kill kind, crash point)."
+	run.Rule = "per scenario {git add via filter-process, one-shot clean, fetch of N objects with resume parts (server honouring / ignoring Range), pull, checkout with smudge download, migrate import, fsck repair of corrupt objects, prune, pull in a clone with a reference store, fetch with the reference store on another filesystem, fetch through a standalone custom transfer agent with its scratch directory on the same / another filesystem}: a discovery run logs every reached verif crash point (temp-file creation, each copy burst, rename into place, link/copy from a reference store, move to bad/, unlink); one SIGKILL run per (point, scenario-wide ordinal); plus an strace sweep injecting SIGKILL at the N-th write/rename/link/unlink/openat of the git-lfs process; plus a write-discipline trace check (no open-for-write below lfs/objects) on uninterrupted runs. Oracle after each kill: every file under lfs/objects hashes to its name, leftovers only in lfs/tmp|incomplete|bad|cache|logs, re-running the command exits as the uninterrupted run and ends with the same object (and bad/) set as the golden run. Class = (scenario, kill kind, crash point)."
 	run.Assumptions = []string{"crash = SIGKILL of a git-lfs process (not power loss); instants between two hooked points are sampled at syscall granularity by the strace sweep only", "strace's when=N counts per thread, so the sweep is sampling: the syscall actually hit is whatever the N-th one of that class was"}
 	all := scenarios(run.Thorough())
 	var chosen []scenario
@@ -423,11 +435,11 @@ func main() {
 			}
 		}
 	} else {
-		chosen = append(chosen, all[:3]...)
+		chosen = append(chosen, all[:4]...)
 		// the rest rotates with the seed, except that the scenarios whose temporary area lies on another
 		// filesystem (rename/link fail with EXDEV and a fallback runs) are always included
 		var rest []scenario
-		for _, sc := range all[3:] {
+		for _, sc := range all[4:] {
 			if strings.Contains(sc.name, "other-filesystem") {
 				chosen = append(chosen, sc)
 			} else {
